@@ -49,11 +49,12 @@ VARIABLES owner, local, cnt, merged, queued,   \* the RcWord
           freed, uaf, excl,                     \* ghost verdicts
           pc, old, new, key, ops,
           exitq, lockU, lockM, mph, lost,       \* merge bookkeeping (see QueueHandle below)
+          retries,                              \* ghost: failed CAS attempts so far (capped), for coverage-directed generation
           hist                                  \* schedule so far (hidden by VIEW)
 vars == <<owner, local, cnt, merged, queued, queue, unreg, registered, alive, h, freed, uaf, excl,
-          pc, old, new, key, ops, exitq, lockU, lockM, mph, lost, hist>>
+          pc, old, new, key, ops, exitq, lockU, lockM, mph, lost, retries, hist>>
 view == <<owner, local, cnt, merged, queued, queue, unreg, registered, alive, h, freed, uaf, excl,
-          pc, old, new, key, ops, exitq, lockU, lockM, mph, lost>>
+          pc, old, new, key, ops, exitq, lockU, lockM, mph, lost, retries>>
 
 RECURSIVE SumH(_)
 SumH(s) == IF s = {} THEN 0 ELSE LET x == CHOOSE x \in s : TRUE IN h[x] + SumH(s \ {x})
@@ -68,7 +69,7 @@ Init == /\ owner = Creator /\ local = 1 /\ cnt = 0 /\ merged = FALSE /\ queued =
         /\ pc = [t \in Thread |-> "idle"] /\ old = [t \in Thread |-> Word] /\ new = [t \in Thread |-> Word]
         /\ key = [t \in Thread |-> None] /\ ops = 0 /\ hist = << >>
         /\ exitq = [t \in Thread |-> 0] /\ lockU = None /\ lockM = None
-        /\ mph = [t \in Thread |-> "none"] /\ lost = 0
+        /\ mph = [t \in Thread |-> "none"] /\ lost = 0 /\ retries = 0
 
 \* every step that dereferences the box; uaf remembers the FIRST point that touched a destroyed box
 Touch(p) == uaf' = (IF uaf = "" /\ freed > 0 THEN p ELSE uaf)
@@ -356,7 +357,9 @@ Step(t) == \/ Start(t) \/ IncReadTid(t) \/ FInc(t) \/ SIncLoad(t) \/ SIncCas(t)
            \/ TuReadTid(t) \/ TuLoadOwn(t) \/ TuLoad(t) \/ TuCas(t) \/ TuDealloc(t)
            \/ MergeBeginU(t) \/ MergeBeginM(t) \/ MergeEnd(t) \/ MergeLoad(t) \/ MergeCas(t) \/ MergeSetTid(t)
            \/ Exit(t)
-Next == \E t \in Thread : Step(t)
+\* a CAS of thread t is about to fail (its expected word is stale): coverage ghost only
+CasFail(t) == pc[t] \in {"SINC_CAS", "FDEC_CAS", "SDEC_CAS", "MERGE_CAS"} /\ old[t] # Word
+Next == \E t \in Thread : Step(t) /\ retries' = (IF CasFail(t) /\ retries < 2 THEN retries + 1 ELSE retries)
 Spec == Init /\ [][Next]_vars
 
 -----------------------------------------------------------------------------
@@ -379,6 +382,12 @@ Counting == (Quiet /\ freed = 0) =>
 
 \* Terminal states print their schedule for the replayer.
 Done == Quiet /\ (ops = MaxOps \/ Total = 0)
+\* coverage-directed generation: with the schedule hidden by VIEW, BFS reaches every distinct terminal
+\* state once; those reached through at least one failed CAS are printed (one witness schedule each)
+EmitRetry == (Done /\ retries > 0) => PrintT(<<"REPLAY", ToJson([hist |-> hist, freed |-> freed, total |-> Total,
+                                          uaf |-> uaf, excl |-> excl,
+                                          proj |-> [owner_some |-> owner # None, local |-> local, cnt |-> cnt,
+                                                    merged |-> merged, queued |-> queued]])>>)
 Emit == Done => PrintT(<<"REPLAY", ToJson([hist |-> hist, freed |-> freed, total |-> Total,
                                           uaf |-> uaf, excl |-> excl,
                                           proj |-> [owner_some |-> owner # None, local |-> local, cnt |-> cnt,
